@@ -47,6 +47,24 @@ func (vc *VC) modelCall(st *State, name string, args []T, sig *types.Signature, 
 	case "math.Min":
 		vc.declare("math_min", []string{SF64, SF64}, SF64)
 		return f64("math_min", args[0].S, args[1].S)
+	case "math.Inf":
+		if isNumeral(args[0].S) {
+			return T{S: "(_ +oo 11 53)", Sort: SF64}, true
+		}
+		if strings.HasPrefix(args[0].S, "(- ") && isNumeral(strings.TrimSuffix(args[0].S[3:], ")")) {
+			return T{S: "(_ -oo 11 53)", Sort: SF64}, true
+		}
+		return T{S: ite(app(">=", args[0].S, "0"), "(_ +oo 11 53)", "(_ -oo 11 53)"), Sort: SF64}, true
+	case "math.Nextafter32":
+		// exact: step by one unit in the last place on the IEEE bit pattern
+		x, y := args[0].S, args[1].S
+		bits := app("fp.to_ieee_bv", x)
+		toF := func(bv string) string { return app("(_ to_fp 8 24)", bv) }
+		down := ite(app("fp.isZero", x), toF("#x80000001"), ite(app("fp.isPositive", x), toF(app("bvsub", bits, "#x00000001")), toF(app("bvadd", bits, "#x00000001"))))
+		up := ite(app("fp.isZero", x), toF("#x00000001"), ite(app("fp.isPositive", x), toF(app("bvadd", bits, "#x00000001")), toF(app("bvsub", bits, "#x00000001"))))
+		nan := "(_ NaN 8 24)"
+		r := ite(or(app("fp.isNaN", x), app("fp.isNaN", y)), nan, ite(app("fp.eq", x, y), x, ite(app("fp.lt", y, x), down, up)))
+		return T{S: r, Sort: SF32}, true
 	case "math.IsNaN":
 		return T{S: app("fp.isNaN", args[0].S), Sort: SBool}, true
 	case "math.IsInf":
